@@ -37,6 +37,8 @@ def files():
 
 
 def weight(path):
+    if os.environ.get('MUT_CORE') and '/opcodes/' in path:
+        return 0
     if path.endswith(('arm_v6.py', 'registers.py')):
         return 60
     if path.endswith(('shift.py', 'bits_ops.py', 'memory_controller_hub.py', 'memory_types.py')):
